@@ -207,7 +207,10 @@ def r4(ctx):
     cn = sites[0].kw.get("control_treatment_name")
     ctx.check("R4", sites[0].site + "::control", cn is not None and U(cn) == "self.screen.control_treatment_name", "keeps the control name",
               f"control_treatment_name={U(cn) if cn is not None else None}")
-    # unique filter
+    unique_filter(ctx, "R4")
+
+
+def unique_filter(ctx, rule):
     f = ctx.fn("data.filter_dataset_to_unique_treatments")
     S = f.params[0]
     src = ast.unparse(f.node)
@@ -222,7 +225,7 @@ def r4(ctx):
         r = returns(f.node)
         env = single_defs(f.node)
         ok = ok and len(r) == 1 and U(inline(r[0].value, env)).replace(" ", "") == f"{S}.subset(select_unique_zipped_numpy_arrays({U(init[0].targets[0])}))"
-    ctx.check("R4", f"{f.site()}::keys", ok, "keys = sample ids + every treatment column; result = subset(mask)",
+    ctx.check(rule, f"{f.site()}::keys", ok, "keys = sample ids + every treatment column; result = subset(mask)",
               "unique filter does not key on sample_ids plus all `treatment_arity` treatment columns of the same view")
     f = ctx.fn("common.select_unique_zipped_numpy_arrays")
     env = single_defs(f.node)
@@ -247,11 +250,32 @@ def r4(ctx):
         r = returns(f.node)
         ok2 = ok2 and len(r) == 1 and U(r[0].value) == res
     if not ok and uq:
+        # recognised-bad: mixed-radix packing `key = key * B + digit` without shifting digits to be non-negative.
+        # The key columns include treatment ids, whose domain contains CONTROL_SENTINEL_VALUE = -1, so with
+        # B = max + 1 two distinct rows can share a key ((s, 1, -1) and (s, 0, max)).
+        packs = []
+        for n in walk_own(f.node):
+            if isinstance(n, (ast.Assign, ast.AugAssign)):
+                v = n.value
+                tgt = U(n.targets[0]) if isinstance(n, ast.Assign) else U(n.target)
+                if isinstance(n, ast.Assign) and isinstance(v, ast.BinOp) and isinstance(v.op, ast.Add) and isinstance(v.left, ast.BinOp) \
+                        and isinstance(v.left.op, ast.Mult) and tgt in (U(v.left.left), U(v.left.right)):
+                    packs.append((n, v.right, v.left.right if U(v.left.left) == tgt else v.left.left))
+        if packs:
+            src = U(f.node)
+            shifted = any(x in src.replace(" ", "") for x in (".min()", "np.min(", "-CONTROL_SENTINEL_VALUE", "+1)", "np.unique(", )) and \
+                any(isinstance(n, ast.BinOp) and isinstance(n.op, ast.Sub) and "min" in U(n.right) for n in ast.walk(f.node))
+            if not shifted:
+                ctx.bad(rule, f"{f.site()}::first-occurrences",
+                        f"rows are packed into one integer by `{U(packs[0][0])}` with radix `{U(packs[0][2])}` but the digits are not shifted to be "
+                        f"non-negative: the key columns contain treatment ids whose domain includes the control sentinel -1, so distinct "
+                        f"(sample, treatment) combinations collide and one experiment is dropped")
+                return
         # a different de-duplication algorithm (np.unique over something other than the stacked columns):
         # injectivity of a derived key is not decidable by this rule -> undecided, not a violation
         raise AnalysisError(f"{f.site()}: np.unique is applied to `{U(uq[0].args[0])[:60]}` (kwargs {sorted(kwargs(uq[0]))}), "
                             f"not row-wise to the stacked key columns; cannot decide whether distinct combinations stay distinct")
-    ctx.check("R4", f"{f.site()}::first-occurrences", ok and ok2, "row-wise np.unique(axis=0, return_index) marks first occurrences on fresh zeros",
+    ctx.check(rule, f"{f.site()}::first-occurrences", ok and ok2, "row-wise np.unique(axis=0, return_index) marks first occurrences on fresh zeros",
               "the unique-combination mask is not computed by a row-wise np.unique(..., axis=0, return_index=True) over the stacked columns")
 
 
